@@ -280,6 +280,15 @@ def gen_pools(rng, th, ob, nx=4, nq=4):
         same = [int(q) for q in q2s if isinstance(q, float) and q == int(q)]
         q2s.append(rng.choice(same) if same and rng.random() < 0.7 else rng.choice([10, 4, 90]))
     if rng.random() < 0.12:
+        # close neighbours (inside the default tolerances of isclose/allclose, 1e-5 relative): values that
+        # anything comparing "up to tolerance" takes for the same scale or the same point
+        v = rng.choice(q2s)
+        if isinstance(v, float):
+            q2s.append(v * (1.0 + rng.choice([5e-6, 2e-6, -3e-6])))
+        w = rng.choice(xs)
+        if w < 0.99:
+            xs.append(w * (1.0 + rng.choice([2e-6, -2e-6])))
+    if rng.random() < 0.12:
         # neighbours in the last bit
         v = rng.choice(q2s)
         if isinstance(v, float):
@@ -345,6 +354,9 @@ def gen_obs_names(rng, th, ob, n, allow_xs=True, wild=0.1):
         name = f"{kind}_{flav}"
         if flav == "total" and rng.random() < 0.4:
             name = kind  # alias spelling
+            if rng.random() < 0.3 and f"{kind}_total" not in names and len(names) + 1 < n:
+                # both spellings in one card: two separate entries for the runner and for the formats
+                names.append(f"{kind}_total")
         if name not in names:
             names.append(name)
     return names
